@@ -1212,6 +1212,27 @@ def rw_update(fi, args, spec=None):
     return edits
 
 
+def rw_sidechan(fi, args, spec=None):
+    """R-SIDECHAN CHAN DB: `self.CHAN.lock().unwrap().take()` -> `vc_take_panic(&self.CHAN, &mut self.DB)`. The side channel
+    (`Arc<Mutex<Option<String>>>`) is written from inside the database (panic functions registered as external
+    functions); interior mutability behind `&self` cannot carry ghost state in Verus, so the pending message is ghost
+    state of the Database and the read is spelled as an operation on it."""
+    toks = fi.toks
+    chan, db = args[0], args[1]
+    pat = ['self', '.', chan, '.', 'lock', '(', ')', '.', 'unwrap', '(', ')', '.', 'take', '(', ')']
+    edits = []
+    i = fi.item.body_open + 1
+    while i + len(pat) <= fi.item.body_close:
+        if all(toks[i + k].text == pat[k] for k in range(len(pat))):
+            edits.append((toks[i].start, toks[i + len(pat) - 1].end, f'vc_take_panic(&self.{chan}, &mut self.{db})', 'R-SIDECHAN'))
+            i += len(pat)
+            continue
+        i += 1
+    if not edits:
+        raise LostAnchor(f'fn {fi.item.name}: R-SIDECHAN did not fire')
+    return edits
+
+
 def rw_dyncall(fi, args, spec=None):
     """R-DYNCALL: `(RECV)(ARGS)` (call of a `dyn Fn` object stored in a field) -> `RECV.vc_call(ARGS)`; Verus does not
     support `dyn Fn` types, the stub type of the field offers `vc_call` with the closure's assumed contract."""
@@ -1236,6 +1257,7 @@ def rw_dyncall(fi, args, spec=None):
 
 REWRITES = {
     'R-DYNCALL': rw_dyncall,
+    'R-SIDECHAN': rw_sidechan,
     'R-UPDATE': rw_update,
     'R-ITERALL': rw_iterall,
     'R-FNPARAM': rw_fnparam,
